@@ -67,7 +67,12 @@ type workerFinal struct {
 
 func setupWorld(env Env) *World {
 	w := NewWorld(env)
-	env.InstallProxies(monitor{w})
+	// DST_NOPROXY=1: an *unobserved* node - the registered biases, listeners and methods stay the
+	// objects main.go registered (no forwarding proxies around them), as in the shipped binary;
+	// only what can be judged from responses is judged there
+	if os.Getenv("DST_NOPROXY") != "1" {
+		env.InstallProxies(monitor{w})
+	}
 	w.Activate()
 	return w
 }
@@ -220,6 +225,11 @@ func execMain(env Env, args []string) int {
 // runPlansFresh executes plans in a fresh node process and returns the
 // results; died is true when the process did not survive.
 func runPlansFresh(plans []*Plan, gomaxprocs int) (res []*PlanResult, died bool, stderrTail string) {
+	return runPlansFreshEnv(plans, gomaxprocs, nil)
+}
+
+// runPlansFreshEnv: the same with further environment variables for the node (DST_NOPROXY=1).
+func runPlansFreshEnv(plans []*Plan, gomaxprocs int, extraEnv []string) (res []*PlanResult, died bool, stderrTail string) {
 	dir, err := os.MkdirTemp(os.Getenv("DST_SCRATCH"), "exec")
 	if err != nil {
 		infra("mktemp: %v", err)
@@ -231,7 +241,7 @@ func runPlansFresh(plans []*Plan, gomaxprocs int) (res []*PlanResult, died bool,
 		infra("%v", err)
 	}
 	cmd := exec.Command(os.Getenv("DST_NODE"), "exec", "-in", in, "-out", out)
-	cmd.Env = append(os.Environ(), fmt.Sprintf("GOMAXPROCS=%d", gomaxprocs))
+	cmd.Env = append(append(os.Environ(), fmt.Sprintf("GOMAXPROCS=%d", gomaxprocs)), extraEnv...)
 	var eb bytes.Buffer
 	cmd.Stderr = &eb
 	done := make(chan error, 1)
@@ -360,6 +370,9 @@ func runBatchV(prop string, seed uint64, tier string, indices []int, workers int
 				cmd := exec.Command(os.Getenv("DST_NODE"), "worker", "-property", prop, "-seed", strconv.FormatUint(seed, 10), "-tier", tier,
 					"-indices", strings.Join(strs, ","), "-out", out, "-wal", wal, fmt.Sprintf("-variant=%v", variant))
 				cmd.Env = append(os.Environ(), fmt.Sprintf("GOMAXPROCS=%d", gmp[j%len(gmp)]))
+				if tag == "u" {
+					cmd.Env = append(cmd.Env, "DST_NOPROXY=1") // the unobserved pass
+				}
 				var eb bytes.Buffer
 				cmd.Stderr = &eb
 				done := make(chan error, 1)
